@@ -248,6 +248,12 @@ def check_mapping(case):
         ab = (0.25, 0.5, 0.75) if case["target"] != "single" else (0.3,)
         pts = [(nx * a * h[0], ny * b * h[1], nz * cc * h[2]) for a in ab for b in ab for cc in zs]
         tgt = pd.DataFrame(pts, columns=["x", "y", "z"], index=pd.Index(range(500, 500 + len(pts)), name="point"))
+    # column order of the caller's frames ("arbitrary mesh": coordinates are addressed by name, not by position)
+    cols = case.get("columns", "xyz")
+    if cols in ("source-fzyx", "both"):
+        src = src[["f", "z", "y", "x"] + [k for k in src.columns if k not in ("f", "x", "y", "z")]]
+    if cols in ("target-zxy", "both"):
+        tgt = tgt[["z", "x", "y"]]
     try:
         with warnings.catch_warnings():
             warnings.simplefilter("ignore")
@@ -279,6 +285,9 @@ def _mapping_cases(t):
                     for c in fields:
                         yield {"family": "mapping", "dims": list(dims), "pert": list(pert), "source": source,
                                "target": target, "field": c}
+                    for cols in ("source-fzyx", "target-zxy", "both"):
+                        yield {"family": "mapping", "dims": list(dims), "pert": list(pert), "source": source,
+                               "target": target, "field": fields[0], "columns": cols}
 
 
 # --------------------------------------------------------------------------------------------------- surface
